@@ -58,8 +58,25 @@ def depth(t):
     return m
 
 
+def not_action(ctx):
+    """the semantic action of `TOK_NOT stmt' as written in src/dexpr-parser.y, with the operand spelt (a.d)"""
+    import os
+    import re
+    y = open(os.path.join(ctx.snap, 'src', 'dexpr-parser.y')).read()
+    m = re.search(r'\|\s*TOK_NOT\s+stmt\s*\{(.*?)\}', y, re.S)
+    if not m:
+        raise core.Broken('cannot find the action of TOK_NOT stmt in src/dexpr-parser.y')
+    act = ' '.join(m.group(1).split()).rstrip(';')
+    act2 = act.replace('($<dex>$ = $<dex>2)', '(a.d)').replace('$<dex>$', '(a.d)').replace('$<dex>2', '(a.d)')
+    if '$' in act2:
+        raise core.Broken('cannot translate the action of TOK_NOT stmt: %r' % act)
+    ctx.not_action = act2
+    return {'grammar_not_action': {'source': act, 'as_compiled_into_the_harness': act2}}
+
+
 def make_obs(ctx):
-    trees = []
+    trees = ['NOT(NOT(L(0)))', 'NOT(NOT(NOT(L(0))))', 'NOT(NOT(OR(L(0), L(1))))', 'AND(NOT(NOT(L(0))), L(1))',
+             'NOT(OR(NOT(NOT(L(0))), L(1)))']
     for n in (1, 2):
         for t in shapes(n):
             trees += negations(t)
@@ -94,7 +111,7 @@ def make_obs(ctx):
             masks[0b0101 & ((1 << nl) - 1)] = 'mixed-atoms'
         for km, kn in masks.items():
             obs.append(Ob('tree:%s:%s' % (t.replace(' ', ''), kn), H, 'h_dexpr',
-                          {'TREE': t, 'NLEAF': nl, 'KINDMASK': km}, units=UNITS, unwind=dp + 6,
+                          {'TREE': t, 'NLEAF': nl, 'KINDMASK': km, 'GRAMMAR_NOT_ACTION': ctx.not_action}, units=UNITS, unwind=dp + 6,
                           group='trees:%d-leaf' % nl, timeout=600,
                           remove_bodies=core.prune_cals(['ymd']),
                           bounds={'tree': t, 'atoms': kn + ': operator in = != < <= > >= (symbolic), %Y constant or ymd date literal 1998..2002 (symbolic)',
@@ -105,7 +122,7 @@ def make_obs(ctx):
 
 def run(tier, seed):
     return core.run_property(
-        'C17', tier, seed, make_obs,
+        'C17', tier, seed, make_obs, pre=not_action,
         level_note=('expression trees enumerated (the program), atoms and line value symbolic; one query per tree '
                     'decides matches(simplify(T), v) == [[T]](v) for all atoms and values, plus single release of nodes'),
         assumptions=['flex/bison front end not encoded: trees are built as the grammar builds them (one zeroed node per operator, negation flag on the operand)',
